@@ -26,6 +26,7 @@ import ClairModel.Proofs.CvssEnvSweepC2
 import ClairModel.Proofs.CvssEnv2
 import ClairModel.Proofs.CvssOsvRaw
 import ClairModel.Proofs.CvssOsvRaw2
+import ClairModel.Proofs.CvssV4Tab
 
 -- every variable of a property statement is bound explicitly: a misspelt name is an error, not a new variable
 set_option autoImplicit false
@@ -202,6 +203,15 @@ theorem grammar_values_match_valid_tables :
 theorem rating_follows_published_bands : ∀ n < 101, some (rating (n : Nat)) = inBands ratingBands (n : Nat) :=
   rating_bands
 
+/-- `QualitativeScore` for every version (v2 has no published scale; the code
+    uses the v3.x / v4.0 one) and EVERY score, as score*10 — not only the 101
+    one-decimal scores 0.0 … 10.0 but also what the v2 environmental equations
+    can produce below 0: None exactly at 0.0, Low below 4.0 (including negative
+    scores), Medium below 7.0, High below 9.0, Critical from 9.0 -/
+theorem rating_thresholds_all_scores (k : Int) :
+    rating k = if k = 0 then 1 else if k < 40 then 2 else if k < 70 then 3 else if k < 90 then 4 else 5 :=
+  rating_all k
+
 /-- the published bands cover 0.0 … 10.0 without overlap: every score lies in exactly one -/
 theorem bands_partition :
     ∀ n : Nat, n < 101 → (ratingBands.filter fun b => decide (b.1 ≤ (n : Int) ∧ (n : Int) ≤ b.2.1)).length = 1 :=
@@ -264,6 +274,28 @@ theorem v4_zero_of_no_impact_partial (v : Vec) (h : v4EffectiveNoImpact v = true
     AV:L/AC:H/Au:M/C:P/I:N/A:N/CDP:ND/TD:ND/CR:L/IR:ND/AR:ND scores −0.2 -/
 theorem v2_environmental_score_negative_example : (parse2 v2NegativeWitness).bind score2 = some (-2) :=
   v2_negative
+
+/-! ### v4: the MacroVector lookup -/
+
+/-- Tie A, every row: the `macrovectorScore` table extracted from the current
+    source is the published lookup table (section 8.3) row by row -/
+theorem v4_lookup_matches_published : v4MacrovectorScore = v4LookupPublished :=
+  v4_table_ok
+
+/-- its keys are exactly the consistent macrovectors — levels EQ1 ≤ 2, EQ2 ≤ 1,
+    EQ3 ≤ 2, EQ4 ≤ 2, EQ5 ≤ 2, EQ6 ≤ 1, and EQ3 = 2 only with EQ6 = 1 (270 of
+    324) — and every score is in 0.1 … 10.0 -/
+theorem v4_lookup_keys_exact :
+    v4MacrovectorScore.map (·.1) = v4AllKeys.filter v4KeyOk ∧
+    v4MacrovectorScore.all (fun e => decide (1 ≤ e.2 ∧ e.2 ≤ 100)) = true :=
+  ⟨v4_keys_exact, v4_table_range⟩
+
+/-- `V4.macrovector()` of ANY vector (any bytes) is a consistent macrovector,
+    so the map lookup in `V4.Score` never misses (the `value` it starts from is
+    always a table row, never the zero value of a missing key) -/
+theorem v4_macrovector_lookup_total (v : Vec) :
+    v4KeyOk (v4Macro v) = true ∧ (v4MvScore (v4Macro v)).isSome = true :=
+  ⟨v4Macro_keyOk v, v4_lookup_total v⟩
 
 /-! ### parsing and printing -/
 
